@@ -93,6 +93,18 @@ def main():
     chk = Check("C17", "other")
     # deductive core: frame (ownership) contracts of the functions this property rests on (contracts/frames.py)
     chk.run_frames()
+    # grid_search compiles ONE vectorised network that holds every row of the grid: whether a row's edges read their own copy of the
+    # source rests on the helper that decides if a grouped source has to be indexed at all (contract shared with C06 / C04 / C11)
+    from checks import c06 as _c06
+    cache6 = {}
+
+    def fb6():
+        if "r" not in cache6:
+            cache6["r"] = [dict(f, site="C17/_get_indexed_var_str") for f in _c06.indexed_var_native(chk)]
+        return cache6["r"]
+    chk.run_contracts("contracts.c06", fallback={"*": fb6})
+    for f in fb6():
+        chk.report_failure(f)
     _cases = families(chk.tier, chk.seed)
     _results = driver.run_family(
         chk, "grid_search-vs-individual-runs", _cases, cases.case_fn, site="C17/grid_search",
